@@ -53,6 +53,7 @@ def cases(tier, seed):
     observers = ['function(){"k"}', 'function($v){[$v]}', 'function($v,$i){[$v,$i]}', 'function($v,$i,$a){[$v,$i,$a]}', 'function($v,$i,$a,$x){[$v,$i,$a,$x]}', 'function($v,$i,$a,$x,$y){$exists($y)}',
                  'function($v,$i,$a,$x,$y,$z){1}', 'function($v,$i,$a){$type($a) = "array"}', 'function($v,$i,$a){$count($a) > $i}', 'function($v,$i,$a){$a[$i] = $v}', 'function($v,$i,$a){$string($a)}',
                  'function($v,$i){$i = 0}', 'function($v,$i,$a){$i = $count($a) - 1}', 'function($v,$i,$a){$type($i) = "number" and $exists($a)}', '$replace', '$substring', '$pad', '$contains', '$append',
+                 'function($v,$i){$i = 0 ? $v}', 'function($v,$i){$i > 0 ? $v}', 'function($v,$i,$a){$i = $count($a) - 1 ? nothing : $v}', 'function($v){nothing}', 'function($v){$v.nosuch}', 'function($v,$i){$i = 1 ? nothing : true}',
                  '$replace(?, ?, ?, ?)', '$substring(?, ?, ?)', '$append(?, ?)', 'function($v)<x:x>{$v}', 'function($v,$i)<xn:n>{$i}', 'function($v,$i,$a)<xna:a>{$a}', 'function($v,$i,$a,$x)<xnax:n>{$i}']
     subjects = [[], [5], [5, 6], [5, 6, 7], 5, 'x', {'a': 1}, [[1, 2]], [[1], [2]], [{'a': 1}, {'a': 2}], None, [True, False, 0, '']]
     for sub, f in itertools.product(subjects, observers):
@@ -64,7 +65,9 @@ def cases(tier, seed):
         if rng.random() < 0.5:
             add('a.$map($, %s)' % f, d, ('protocol',)); add('$map(a, %s) ~> $count()' % f, d, ('protocol',))
     robs = ['function($p,$q){[$p,$q]}', 'function($p,$q,$i){[$p,$q,$i]}', 'function($p,$q,$i,$a){[$p,$q,$i,$a]}', 'function($p){$p}', 'function(){1}', 'function($p,$q,$i,$a,$x){$x}', '$append', '$replace', '$string',
-            'function($p,$q)<xx:x>{$q}', '$substring(?, ?)', 'function($p,$q){$p & "," & $q}']
+            'function($p,$q)<xx:x>{$q}', '$substring(?, ?)', 'function($p,$q){$p & "," & $q}',
+            # callbacks that yield no value on some step (first, middle, last, every)
+            'function($p,$q){$q > 5 ? $p + $q}', 'function($p,$q){nothing}', 'function($p,$q){$q = 7 ? nothing : $p}', 'function($p,$q){$q = 6 ? nothing : $q}', 'function($p,$q){$p.nosuch}', 'function($p,$q){$exists($p) ? nothing : $q}']
     for sub, f, init in itertools.product(subjects, robs, ['', ', 100', ', nothing', ', []', ', "s"']):
         if tier == 'quick' and rng.random() < 0.5:
             continue
